@@ -371,3 +371,69 @@ package tally
 //@   loop 1 invariant @values_finite htype == valueHistogramType ==> (forall j int :: 0 <= j && j < len(values) ==> !isNaN(values[j]) && !isInf(values[j]))
 //@   loop 1 invariant @values_sorted htype == valueHistogramType ==> (forall a, b int :: 0 <= a && a <= b && b < len(values) ==> values[a] <= values[b])
 //@   loop 1 invariant @durations_sorted htype == durationHistogramType ==> (forall a, b int :: 0 <= a && a <= b && b < len(durations) ==> durations[a] <= durations[b])
+
+//@ pred vup(s []histogramBucket, i int) { s[i].valueUpperBound }
+//@ pred dup(s []histogramBucket, i int) { s[i].durationUpperBound }
+
+//@ func valueLowerBound
+//@   property C03
+//@   requires 0 <= i - 1 ==> i - 1 < len(buckets)
+//@   ensures @first i <= 0 ==> same(result, -math.MaxFloat64)
+//@   ensures @previous_upper i > 0 ==> same(result, vup(buckets, i-1))
+//@   ensures @quiet quiet()
+
+//@ func durationLowerBound
+//@   property C03
+//@   requires 0 <= i - 1 ==> i - 1 < len(buckets)
+//@   ensures @first i <= 0 ==> result == math.MinInt64
+//@   ensures @previous_upper i > 0 ==> result == dup(buckets, i-1)
+//@   ensures @quiet quiet()
+
+//@ func newBucketStorage
+//@   property C03, C20
+//@   allocs
+//@   witness sv []float64 = callee BucketPairs.sv
+//@   witness sd []time.Duration = callee BucketPairs.sd
+//@   requires buckets == nil || is(buckets, ValueBuckets) || is(buckets, DurationBuckets)
+//@   requires is(buckets, ValueBuckets) ==> (forall k int :: 0 <= k && k < len(vb(buckets)) ==> !isNaN(vb(buckets)[k]) && !isInf(vb(buckets)[k]))
+//@   ensures @spec_kept same(result.buckets, buckets)
+//@   ensures @fresh len(result.hbuckets) >= 1 && fresh(result.hbuckets)
+//@   ensures @quiet quiet()
+//@   ensures @value_last is(buckets, ValueBuckets) && len(vb(buckets)) >= 1 ==> len(result.hbuckets) == len(vb(buckets)) + 1 && same(vup(result.hbuckets, len(result.hbuckets)-1), math.MaxFloat64)
+//@   ensures @value_sorted is(buckets, ValueBuckets) && len(vb(buckets)) >= 1 ==> (forall i, j int :: 0 <= i && i <= j && j < len(result.hbuckets) ==> vup(result.hbuckets, i) <= vup(result.hbuckets, j))
+//@   ensures @value_uppers_are_sorted_spec is(buckets, ValueBuckets) && len(vb(buckets)) >= 1 ==> len(sv) == len(vb(buckets)) && (forall j int :: 0 <= j && j < len(sv) ==> same(vup(result.hbuckets, j), sv[j])) && (forall j int :: 0 <= j && j < len(sv) ==> (exists k int :: 0 <= k && k < len(vb(buckets)) && same(sv[j], vb(buckets)[k]))) && (forall k int :: 0 <= k && k < len(vb(buckets)) ==> (exists j int :: 0 <= j && j < len(sv) && same(sv[j], vb(buckets)[k])))
+//@   ensures @duration_last is(buckets, DurationBuckets) && len(db(buckets)) >= 1 ==> len(result.hbuckets) == len(db(buckets)) + 1 && dup(result.hbuckets, len(result.hbuckets)-1) == math.MaxInt64
+//@   ensures @duration_sorted is(buckets, DurationBuckets) && len(db(buckets)) >= 1 ==> (forall i, j int :: 0 <= i && i <= j && j < len(result.hbuckets) ==> dup(result.hbuckets, i) <= dup(result.hbuckets, j))
+//@   ensures @duration_uppers_are_sorted_spec is(buckets, DurationBuckets) && len(db(buckets)) >= 1 ==> len(sd) == len(db(buckets)) && (forall j int :: 0 <= j && j < len(sd) ==> dup(result.hbuckets, j) == sd[j]) && (forall j int :: 0 <= j && j < len(sd) ==> (exists k int :: 0 <= k && k < len(db(buckets)) && sd[j] == db(buckets)[k])) && (forall k int :: 0 <= k && k < len(db(buckets)) ==> (exists j int :: 0 <= j && j < len(sd) && sd[j] == db(buckets)[k]))
+//@   ensures @empty_single (buckets == nil || (is(buckets, ValueBuckets) && len(vb(buckets)) == 0) || (is(buckets, DurationBuckets) && len(db(buckets)) == 0)) ==> len(result.hbuckets) == 1 && same(vup(result.hbuckets, 0), math.MaxFloat64) && dup(result.hbuckets, 0) == math.MaxInt64
+//@   loop 1 invariant @idx 0 <= rangeindex + 1 && rangeindex + 1 <= len(pairs)
+//@   loop 1 invariant @shape len(storage.hbuckets) == rangeindex + 1 && cap(storage.hbuckets) == len(pairs) && fresh(storage.hbuckets) && same(storage.buckets, buckets)
+//@   loop 1 invariant @copied forall j int :: 0 <= j && j <= rangeindex ==> same(vup(storage.hbuckets, j), upv(pairs[j])) && dup(storage.hbuckets, j) == upd(pairs[j])
+//@   loop 1 invariant @pairs_kept forall j int :: 0 <= j && j < len(pairs) ==> isPair(pairs[j])
+//@   loop 1 invariant @quiet quiet()
+
+//@ func newHistogram
+//@   property C03, C01
+//@   allocs
+//@   emits
+//@   requires len(storage.hbuckets) >= 1
+//@   requires cachedHistogram != nil ==> (htype == valueHistogramType || htype == durationHistogramType)
+//@   ensures @fresh result != nil && fresh(result)
+//@   ensures @fields result.htype == htype && result.name == name && result.tags == tags && same(result.reporter, reporter) && same(result.specification, storage.buckets) && same(result.buckets, storage.hbuckets)
+//@   ensures @wf histWF(result)
+//@   ensures @counters_start_at_zero forall i int :: 0 <= i && i < len(result.samples) ==> result.samples[i].counter.curr == 0 && result.samples[i].counter.prev == 0 && fresh(result.samples[i].counter)
+//@   ensures @no_cached_no_calls cachedHistogram == nil ==> quiet()
+//@   ensures @cached_one_bucket_each cachedHistogram != nil ==> len(calls) == old(len(calls)) + len(storage.hbuckets) && (forall j int :: 0 <= j && j < old(len(calls)) ==> calls[j] == old(calls[j]))
+//@   ensures @cached_value_bounds cachedHistogram != nil && htype == valueHistogramType ==> (forall i int :: 0 <= i && i < len(storage.hbuckets) ==> calls[old(len(calls)) + i] == ev(CachedHistogram.ValueBucket, cachedHistogram, (i == 0 ? -math.MaxFloat64 : vup(storage.hbuckets, i-1)), vup(storage.hbuckets, i)) && same(result.samples[i].cachedBucket, ires(old(len(calls)) + i)))
+//@   ensures @cached_duration_bounds cachedHistogram != nil && htype == durationHistogramType ==> (forall i int :: 0 <= i && i < len(storage.hbuckets) ==> calls[old(len(calls)) + i] == ev(CachedHistogram.DurationBucket, cachedHistogram, (i == 0 ? math.MinInt64 : dup(storage.hbuckets, i-1)), dup(storage.hbuckets, i)) && same(result.samples[i].cachedBucket, ires(old(len(calls)) + i)))
+//@   ensures @storage_untouched forall i int :: 0 <= i && i < len(storage.hbuckets) ==> same(vup(storage.hbuckets, i), old(vup(storage.hbuckets, i))) && dup(storage.hbuckets, i) == old(dup(storage.hbuckets, i))
+//@   loop 1 invariant @idx 0 <= rangeindex + 1 && rangeindex + 1 <= len(h.samples)
+//@   loop 1 invariant @h_fresh h != nil && fresh(h) && fresh(h.samples) && len(h.samples) == len(storage.hbuckets) && h.samples.off == 0
+//@   loop 1 invariant @fields h.htype == htype && h.name == name && h.tags == tags && same(h.reporter, reporter) && same(h.specification, storage.buckets) && same(h.buckets, storage.hbuckets)
+//@   loop 1 invariant @counters forall j int :: 0 <= j && j <= rangeindex ==> h.samples[j].counter != nil && fresh(h.samples[j].counter) && h.samples[j].counter.curr == 0 && h.samples[j].counter.prev == 0
+//@   loop 1 invariant @distinct forall j, k int :: 0 <= j && j < k && k <= rangeindex ==> h.samples[j].counter != h.samples[k].counter
+//@   loop 1 invariant @no_cached cachedHistogram == nil ==> quiet()
+//@   loop 1 invariant @cached_count cachedHistogram != nil ==> len(calls) == old(len(calls)) + rangeindex + 1 && (forall j int :: 0 <= j && j < old(len(calls)) ==> calls[j] == old(calls[j]))
+//@   loop 1 invariant @cached_value cachedHistogram != nil && htype == valueHistogramType ==> (forall i int :: 0 <= i && i <= rangeindex ==> calls[old(len(calls)) + i] == ev(CachedHistogram.ValueBucket, cachedHistogram, (i == 0 ? -math.MaxFloat64 : vup(storage.hbuckets, i-1)), vup(storage.hbuckets, i)) && same(h.samples[i].cachedBucket, ires(old(len(calls)) + i)))
+//@   loop 1 invariant @cached_duration cachedHistogram != nil && htype == durationHistogramType ==> (forall i int :: 0 <= i && i <= rangeindex ==> calls[old(len(calls)) + i] == ev(CachedHistogram.DurationBucket, cachedHistogram, (i == 0 ? math.MinInt64 : dup(storage.hbuckets, i-1)), dup(storage.hbuckets, i)) && same(h.samples[i].cachedBucket, ires(old(len(calls)) + i)))
+//@   loop 1 invariant @storage_untouched forall i int :: 0 <= i && i < len(storage.hbuckets) ==> same(vup(storage.hbuckets, i), old(vup(storage.hbuckets, i))) && dup(storage.hbuckets, i) == old(dup(storage.hbuckets, i))
